@@ -46,6 +46,7 @@ type scenario struct {
 // bodies the scenarios are built from (names must exist in the menu)
 var schedBodies = []string{
 	"Ps.Apply(docS)",
+	"Ps.ApplyWithOptions(docS, SHARED opts limit=12)",
 	"Ps.ApplyIndent(docS)",
 	"DecodePatch(patchS)+Apply(docS)",
 	"MergePatch(docS,mpS)",
@@ -173,8 +174,11 @@ func planJobs(w *apiWorld, s *sched, tier string) []schedJob {
 	for i := range jobs {
 		zs.StmtPoints = jobs[i].stmt
 		schedExec(w, s, jobs[i].sc, nil)
-		n := float64(s.points)
 		jobs[i].pts = s.points
+		if tier == "quick" && !jobs[i].stmt && jobs[i].bound == 2 && s.points > 200 {
+			jobs[i].bound = 1 // the largest pairs get their second preemption in the thorough tier
+		}
+		n := float64(s.points)
 		k := float64(len(jobs[i].sc.calls) - 1)
 		execs := 1.0
 		for b := 1; b <= jobs[i].bound; b++ {
@@ -236,7 +240,7 @@ func runSchedx(ctx *core.Ctx, tier string) {
 	mine := assignJobs(jobs, nshards)[shard]
 	ctx.Rep.Rule = fmt.Sprintf("stateless DFS over ALL schedules of each scenario within a preemption bound (iterative context bounding; Pool.Get answers share the deviation budget), on the real code under a controlled scheduler. Scenarios: every unordered pair (incl. the same call twice) of %d calls on ONE shared Patch and shared input slices, with cold and with warm type caches, plus 3-goroutine scenarios. "+
 		"Two configurations: (A) a scheduling point before every sync.Pool/Map/WaitGroup operation of the codec and at call start/end; (B) additionally before every statement of every function that touches a pool or cache (injected at build time), which is what exposes an object being used after it was returned to a pool. "+
-		"Tier plan: quick = A with <=2 preemptions on cold pairs, <=1 on warm pairs and 3-goroutine scenarios, B with <=1; thorough = A with <=2 everywhere (3 where the default schedule has <=70 points), B with <=1 (2 where <=330 points). "+
+		"Tier plan: quick = A with <=2 preemptions on cold pairs whose default schedule has <=200 points, <=1 on the larger ones, on warm pairs and on 3-goroutine scenarios, B with <=1; thorough = A with <=2 everywhere (3 where the default schedule has <=70 points), B with <=1 (2 where <=330 points). "+
 		"Oracle per complete schedule: every goroutine's call returns its solo outcome, shared buffers and Patch unchanged, no panic, no deadlock. states = distinct library states (dump of all package-level variables) at the end of the schedules with <=1 deviation; transitions = scheduling points executed; non-trivial = schedules with >=1 preemption. "+
 		"Second half (mandatory for the 'no data race' clause): the same bodies free-running under the Go race detector, see coverage.race_pass", len(schedBodies))
 	ctx.Rep.Assume = append(ctx.Rep.Assume,
